@@ -89,7 +89,7 @@ def signature(pid, rej):
         items = ev.get("items")
         if items is not None:
             bad = [i for i in items if not i.get("ok", True)]
-            detail = "@" + ("rejected:" + slug(bad[-1].get("err"), 6) if bad else "accepted")
+            detail = "@" + ("rejected:" + slug(bad[-1].get("err"), 12) if bad else "accepted")
         else:
             detail = "@" + ("accepted" if ev.get("ok") else "rejected:" + slug(ev.get("err"), 6))
     short = {k2: (v if not isinstance(v, list) or len(v) <= 48 else "[%d items]" % len(v)) for k2, v in ev.items()}
